@@ -27,10 +27,11 @@ CONSTANTS Entries,      \* leaf entry alphabet: set of [k, n, to]  (k \in {"file
           MaxChild,     \* entries inside a directory entry
           PreStates,    \* pre-populated contents of /w/out: set of functions relative-path -> node
           GuardFinal,   \* BOOLEAN
-          FileRoots     \* BOOLEAN: top-level items may also be bare FILE ROOTS of the archive
+          FileRoots,    \* BOOLEAN: top-level items may also be bare FILE ROOTS of the archive
+          MatchPaths    \* set of `--path` arguments (sequences of names); <<>> = extract everything
 
-VARIABLES fs, todo, aborted, arch, pre
-vars == <<fs, todo, aborted, arch, pre>>
+VARIABLES fs, todo, aborted, arch, pre, mp
+vars == <<fs, todo, aborted, arch, pre, mp>>
 
 Out == <<"w", "out">>
 Base == (<<"w">> :> [t |-> "dir"]) @@ (Out :> [t |-> "dir"]) @@ (<<"w", "sent">> :> [t |-> "file", c |-> "SENTINEL"])
@@ -115,13 +116,24 @@ DirEntry(nm, ch) == [k |-> "dir", n |-> nm, ch |-> ch]
    between two file roots are the entries of one directory root. *)
 FRoot == [k |-> "froot", n |-> <<"unknown">>, to |-> [abs |-> FALSE, segs |-> <<>>]]
 
+(* `car extract --path a/b`: at each level only the FIRST entry of that name is looked up and extracted (a lookup
+   that finds nothing is an error); below the end of the path everything is extracted.  An item of `todo`
+   carries what is left of the path. *)
+Pick(d, es, rem) ==
+  IF rem = <<>> THEN [ok |-> TRUE, items |-> [i \in 1..Len(es) |-> [d |-> d, e |-> es[i], rem |-> <<>>]]]
+  ELSE LET hits == { i \in 1..Len(es) : es[i].n = <<rem[1]>> } IN
+       IF hits = {} THEN [ok |-> FALSE, items |-> <<>>]
+       ELSE LET i == CHOOSE j \in hits : \A k \in hits : j <= k IN
+            [ok |-> TRUE, items |-> << [d |-> d, e |-> es[i], rem |-> Tail(rem)] >>]
+
 Init ==
+  /\ mp \in MatchPaths
   /\ \E p0 \in PreStates : pre = p0
   /\ \E k \in 1..MaxTop : \E top \in [1..k -> Entries \cup { DirEntry(nm, ch) : nm \in DirNames, ch \in LeafSeqs(MaxChild) }
                                                      \cup (IF FileRoots THEN {FRoot} ELSE {})] : arch = top
   /\ fs = Base @@ [p \in { Out \o q : q \in DOMAIN pre } |-> pre[SubSeq(p, 3, Len(p))]]
-  /\ todo = [i \in 1..Len(arch) |-> [d |-> <<>>, e |-> arch[i]]]
-  /\ aborted = FALSE
+  /\ todo = Pick(<<>>, arch, mp).items
+  /\ aborted = ~Pick(<<>>, arch, mp).ok
 
 Content(e) == "DATA"
 
@@ -134,16 +146,17 @@ Step ==
      ELSE IF e.k = "dir"
        THEN LET r == MkdirAll(fs, target) IN
             IF ~r.ok THEN aborted' = TRUE /\ UNCHANGED <<fs, todo>>
-            ELSE /\ fs' = r.fs
-                 /\ todo' = [i \in 1..Len(e.ch) |-> [d |-> Clean(<<>>, rel), e |-> e.ch[i]]] \o Tail(todo)
-                 /\ UNCHANGED aborted
+            ELSE LET pk == Pick(Clean(<<>>, rel), e.ch, it.rem) IN
+                 /\ fs' = r.fs
+                 /\ todo' = pk.items \o Tail(todo)
+                 /\ aborted' = ~pk.ok
      ELSE IF e.k = "missing"
        \* the entry's block is not in the archive: reported and skipped, after its path was resolved
        THEN todo' = Tail(todo) /\ UNCHANGED <<fs, aborted>>
      ELSE LET r == IF e.k \in {"file", "froot"} THEN Create(fs, target, Content(e)) ELSE Symlink(fs, target, e.to) IN
           IF ~r.ok THEN aborted' = TRUE /\ UNCHANGED <<fs, todo>>
           ELSE fs' = r.fs /\ todo' = Tail(todo) /\ UNCHANGED aborted
-  /\ UNCHANGED <<arch, pre>>
+  /\ UNCHANGED <<arch, pre, mp>>
 
 Spec == Init /\ [][Step]_vars
 
@@ -157,5 +170,5 @@ Contained ==
 InsideTree == [p \in { q \in DOMAIN fs : IsUnder(q, Out) /\ q # Out } |-> fs[p]]
 TreeJson == { [path |-> SubSeq(p, 3, Len(p)), node |-> fs[p]] : p \in { q \in DOMAIN fs : IsUnder(q, Out) /\ q # Out } }
 Emit == Finished => PrintT(ToJson([rec |-> "extract", arch |-> arch, pre |-> { [path |-> q, node |-> pre[q]] : q \in DOMAIN pre },
-                                   aborted |-> aborted, tree |-> TreeJson, contained |-> Contained]))
+                                   aborted |-> aborted, tree |-> TreeJson, contained |-> Contained, mp |-> mp]))
 =============================================================================
